@@ -190,8 +190,10 @@ CLAIMS = {
          "of clones, and a subscription made from inside a callback of another, yield the pure run and leave the heap untouched), "
          "C13_shared_state_would_break_it (the hypothesis is necessary). Each run builds pipelines over counting sources (of_fn, start, defer, "
          "create, from_iter), reads the counters before any subscription (laziness) and after 2-3 successive or nested subscriptions of clones, "
-         "and compares every subscription's trace with the model. PARTIAL: futures are not exercised; laziness is decided by the counters "
-         "(correspondence), not by a theorem.", "DESIGN.md section 5 C13"),
+         "and compares every subscription's trace with the model; two overlapping subscriptions of clones of one scheduler-using operator "
+         "value (delay, observe_on, debounce, buffers, delayed subscription) are compared with two independent timed systems. The table's "
+         "notion of 'shared cell' includes the crate's own sharing types and aliases (MultiSubscription, TaskHandle, RcHandler ...). PARTIAL: "
+         "futures are not exercised; laziness is decided by the counters (correspondence), not by a theorem.", "DESIGN.md section 5 C13"),
  "C18": ("Theorems: C18_same_notifications / C18_same_outcome_when_finished (a macro body seen as a sequence of cell acquisitions, releases and "
          "downstream calls delivers the same notifications with RefCell cells and with Mutex cells in one thread; both finish or both fail - the "
          "local form by a panic, the thread-safe one by never returning), C18_both_forms_share_one_body and C18_written_twice_is_reviewed (tables "
